@@ -155,7 +155,7 @@ PosName(D, n) == IF \E i \in 1..Len(D.fields) : D.fields[i].n = n
                  THEN VariantFieldName((CHOOSE i \in 1..Len(D.fields) : D.fields[i].n = n) - 1) ELSE n
 AsVariantT(D, shape) ==
   EnumT(<<VariantT(<<65, 97>>, "unit", <<>>, <<>>, FALSE),
-          VariantT(<<86>>, shape,
+          VariantT(<<86>>, IF Len(D.fields) = 0 THEN "unit" ELSE shape,     \* no fields left: a unit constructor with a history
                    [i \in 1..Len(D.fields) |-> IF shape = "tuple" THEN [D.fields[i] EXCEPT !.n = VariantFieldName(i - 1)] ELSE D.fields[i]],
                    [j \in 1..Len(D.steps) |-> IF shape = "tuple" THEN [D.steps[j] EXCEPT !.n = PosName(D, @)] ELSE D.steps[j]], FALSE)>>, FALSE)
 \* positional names are stable between two versions when no field was ever dropped from the declaration and the
